@@ -150,40 +150,62 @@ theorem collectMem_total (archive : Bytes) (paths : List Bytes) (sizes : List Na
 example : RpmVerif.FileIter.collectMem [255, 255] [[47, 97], [47, 98]] [1, 1] = [.err "eof", .err "eof"] := by
   decide +kernel
 
-/-- `signature_key_ids` never panics -/
-theorem oneIssuer_total (S : SigScheme) (sig : Bytes) : (oneIssuer S sig).isPanic = false := by
+/-- `signature_key_ids` never panics — for an OpenPGP layer whose issuer lists have fewer than 2^32 entries
+(`SigScheme.IssuerSmall`): the count handed to `Error::UnexpectedIssuerCount` goes through `usize → u32` with an `unwrap`
+(`package.rs:309, 352`; `Sign.issuerCountErr`) -/
+theorem oneIssuer_total (S : SigScheme) (hs : S.IssuerSmall) (sig : Bytes) : (oneIssuer S sig).isPanic = false := by
   unfold oneIssuer; split
   · rfl
-  · split <;> rfl
+  · rename_i ids heq
+    split
+    · unfold issuerCountErr; rw [if_pos (hs _ _ heq)]; rfl
+    · rfl
 
-theorem idsAll_total (S : SigScheme) (l : List Bytes) : (idsAll S l).isPanic = false := by
+theorem idsAll_total (S : SigScheme) (hs : S.IssuerSmall) (l : List Bytes) : (idsAll S l).isPanic = false := by
   induction l with
   | nil => rfl
   | cons b rest ih =>
     unfold idsAll
     split
     · rfl
-    · exact Out.bind_not_panic (oneIssuer_total S _) (fun _ _ => Out.bind_not_panic ih (fun _ _ => rfl))
+    · exact Out.bind_not_panic (oneIssuer_total S hs _) (fun _ _ => Out.bind_not_panic ih (fun _ _ => rfl))
 
-theorem keyIds_total (S : SigScheme) (p : Package) : (keyIds S p).isPanic = false := by
+theorem keyIds_total (S : SigScheme) (hs : S.IssuerSmall) (p : Package) : (keyIds S p).isPanic = false := by
   unfold keyIds
   split
-  · exact idsAll_total S _
+  · exact idsAll_total S hs _
   · dsimp only
     split
     · rfl
-    · exact oneIssuer_total S _
+    · exact oneIssuer_total S hs _
+
+/-- … and the hypothesis is not decoration: an issuer list of 2^32 or more entries makes the `unwrap` panic -/
+theorem oneIssuer_u32_overflow (S : SigScheme) (sig : Bytes) (ids : List Bytes) (hi : S.issuer sig = some ids)
+    (hbig : 4294967296 ≤ ids.length) : oneIssuer S sig = .panic "issuer-count-u32" := by
+  unfold oneIssuer
+  rw [hi]
+  dsimp only
+  rw [if_pos (by omega)]
+  unfold issuerCountErr
+  rw [if_neg (by omega)]
+
+/-- `IssuerSmall` is satisfiable: the symbolic scheme reports at most one issuer -/
+example : (Sym.scheme (fun k => [k])).IssuerSmall := by
+  intro b ids h
+  simp only [Sym.scheme, Option.map_eq_some_iff] at h
+  obtain ⟨k, _, rfl⟩ := h
+  simp
 
 /-- **read side, bundled**: on any package value, digest verification, signature verification (any
 verifier, stateful or not), key-id extraction and payload iteration end in a value or an error -/
 theorem readside_total (H : RpmVerif.DigestSpec.Hashes) (b64 : Bytes → Option Bytes) (v : RpmVerif.Verify.Verifier)
-    (S : SigScheme) (p : Package) (archive : Bytes) (paths : List Bytes) (sizes : List Nat) :
+    (S : SigScheme) (hs : S.IssuerSmall) (p : Package) (archive : Bytes) (paths : List Bytes) (sizes : List Nat) :
     (RpmVerif.Digest.verifyDigests H.md5 H.sha1 H.sha256 p).isPanic = false
     ∧ (RpmVerif.Verify.verifySignatureS H.md5 H.sha1 H.sha256 b64 v p).1.isPanic = false
     ∧ (keyIds S p).isPanic = false
     ∧ (∀ r ∈ iterate archive paths sizes, r.isPanic = false)
     ∧ (RpmVerif.Acc.getFileEntries p.md.signature p.md.header).isPanic = false :=
   ⟨RpmVerif.C03.digests_total H p, RpmVerif.C02.verify_total H.md5 H.sha1 H.sha256 b64 v p,
-   keyIds_total S p, iterate_total archive paths sizes, getFileEntries_total _ _⟩
+   keyIds_total S hs p, iterate_total archive paths sizes, getFileEntries_total _ _⟩
 
 end RpmVerif.C04
